@@ -34,6 +34,7 @@ struct Shared {
     eq_seen: Mutex<HashMap<(u32, u32), bool>>,
     failures: Mutex<Vec<String>>,
     next_zone: AtomicU32,
+    last_spec: Mutex<HashMap<u8, Spec>>,
 }
 
 struct MiriEnv {
@@ -93,6 +94,13 @@ impl Env for MiriEnv {
         true
     }
     fn api_panic(&mut self, _api: &'static str) {}
+    fn last_spec(&mut self, me: u8, set: Option<&Spec>) -> Option<Spec> {
+        let mut m = self.sh.last_spec.lock().unwrap();
+        match set {
+            Some(s) => m.insert(me, s.clone()),
+            None => m.get(&me).cloned(),
+        }
+    }
     fn db_get(&mut self, _name: u8, _case: u8) -> Option<(TimeZone, u32)> {
         None
     }
@@ -113,6 +121,7 @@ fn run_program(case: &Case) -> Vec<String> {
         eq_seen: Mutex::new(HashMap::new()),
         failures: Mutex::new(vec![]),
         next_zone: AtomicU32::new(0),
+        last_spec: Mutex::new(HashMap::new()),
     });
     let mut joins = vec![];
     for (i, ops) in case.threads.iter().enumerate() {
